@@ -716,6 +716,9 @@ class CharInterp:
                 if meth in ("strip", "lstrip", "rstrip"):
                     return S(recv.any, recv.any, True)
             raise AnalysisError(f"E6: unsupported method .{meth} at {m.rel}:{n.lineno}")
+        if fn in ("map", "filter") and len(n.args) == 2 and not n.keywords and not is_repo_func:
+            # map(f, xs) is (f(x) for x in xs), filter(f, xs) is (x for x in xs if f(x)): decided as that comprehension
+            return self.ev(ast.copy_location(self._as_comprehension(fn, n.args[0], n.args[1], m, n.lineno), n), env, m)
         if fn == "bool" and len(n.args) == 1 and not n.keywords:
             return self.truth(n.args[0], env, m)
         if fn == "len" and len(n.args) == 1:
@@ -798,6 +801,31 @@ class CharInterp:
                         tuple((ren[v], fact) for v, fact in out.when_false if v in ren))
             return out
         raise AnalysisError(f"E6: unsupported call {fn} at {m.rel}:{n.lineno}")
+
+    def _as_comprehension(self, kind: str, f: ast.expr, it: ast.expr, m: Module, lineno: int) -> ast.GeneratorExp:
+        """the generator expression that `map(f, it)` / `filter(f, it)` abbreviates; f may be a function name, `str.method`, a
+        one-parameter lambda or (filter) None"""
+        var = "__item"
+        item: ast.expr = ast.Name(id=var, ctx=ast.Load())
+        if isinstance(f, ast.Lambda) and len(f.args.args) == 1 and not (f.args.vararg or f.args.kwarg or f.args.kwonlyargs):
+            var = f.args.args[0].arg
+            item = ast.Name(id=var, ctx=ast.Load())
+            applied: ast.expr = f.body
+        elif isinstance(f, ast.Attribute) and isinstance(f.value, ast.Name) and f.value.id == "str":
+            applied = ast.Call(func=ast.Attribute(value=item, attr=f.attr, ctx=ast.Load()), args=[], keywords=[])
+        elif isinstance(f, ast.Constant) and f.value is None and kind == "filter":
+            applied = item
+        elif isinstance(f, (ast.Name, ast.Attribute)):
+            applied = ast.Call(func=f, args=[item], keywords=[])
+        else:
+            raise AnalysisError(f"E6: unsupported function argument of {kind} at {m.rel}:{lineno}")
+        gen = ast.comprehension(target=ast.Name(id=var, ctx=ast.Store()), iter=it, ifs=[applied] if kind == "filter" else [], is_async=0)
+        out = ast.GeneratorExp(elt=applied if kind == "map" else item, generators=[gen])
+        for x in ast.walk(out):
+            if not hasattr(x, "lineno"):
+                x.lineno = lineno  # type: ignore[attr-defined]
+                x.col_offset = 0  # type: ignore[attr-defined]
+        return out
 
     def _callee(self, fn: str | None, m: Module) -> tuple[FuncInfo, bool] | None:
         """The package function a call runs, and whether its first parameter is bound implicitly (cls / self):
